@@ -11,10 +11,8 @@ structure CodecOk (c : Codec) : Prop where
   hash : ∀ kind h, c.readHash kind (c.showHash kind h) = some h
   raw : ∀ h, c.readRaw (c.showRaw h) = some h
 
-/-- invariants of the Rust TYPES at one node (`AbsLockTime`, `RelLockTime`, `Threshold<_, MAX>`),
-and: the node is not a raw public key hash -/
+/-- invariants of the Rust TYPES at one node (`AbsLockTime`, `RelLockTime`, `Threshold<_, MAX>`) -/
 def localOk : Ms → Bool
-  | .rawPkH _ => false
   | .after n => decide (1 ≤ n ∧ n ≤ 2147483647)
   | .older n => decide (1 ≤ n ∧ n ≤ 2147483647)
   | .thresh k xs => decide (1 ≤ k ∧ k ≤ xs.length ∧ k ≤ 4294967295)
@@ -119,7 +117,7 @@ theorem wrap_step (c : Codec) (ws : List W) (w : W) (x : Ms)
   simp only [mk_ok c _ hmk]
 
 theorem sugarCheck_cases (c : Codec) (x : Ms) :
-    sugarCheck c x = none ∨ (∃ k, x = .pkK k) ∨ (∃ k, x = .pkH k) ∨ (∃ h, x = .rawPkH h) := by
+    sugarCheck c x = none ∨ (∃ k, x = .pkK k) ∨ (∃ k, x = .pkH k) := by
   cases x <;> simp [sugarCheck]
 
 theorem atomsOk_of_codecOk (c : Codec) (hc : CodecOk c) (m : Ms) : atomsOk c m = true := by
